@@ -1,0 +1,48 @@
+//go:build verif
+
+package main
+
+// Contracts for the gvc verifier (/verif). Comment-only: this file adds no
+// code. Syntax: /verif/DESIGN.md §2.2.
+//
+// os.Exit never returns (modelled as a structured exit); lastreadok / lasteq
+// record the outcome of the last os.ReadFile / bytes.Equal so that "a file
+// whose content would not change is not rewritten" is a precondition of
+// os.WriteFile.
+
+//@ ghost var lastreadok bool
+//@ ghost var lasteq bool
+
+//@ assume func os.Exit (code)
+//@   noreturn
+//@   structured
+//@ assume func os.ReadFile (name)
+//@   modifies lastreadok
+//@   allocates
+//@   ensures lastreadok == (result.1 == nil)
+//@ assume func bytes.Equal (a, b)
+//@   modifies lasteq
+//@   ensures lasteq == result
+//@ assume func os.WriteFile (name, data, perm)
+//@   requires [unchanged content is not rewritten] !(lastreadok && lasteq)
+//@ assume func os.MkdirAll (path, perm)
+//@ assume func fmt.Fprintln (w, a)
+
+//@ props C17
+
+//@ func writeFileIfChanged
+//@   noframe
+
+// coqFileContents writes only into its own buffer (frame by the store sweep of C06)
+//@ func coqFileContents
+//@   may_reject
+//@   modifies fresh
+//@   noframe
+
+//@ func translate
+//@   may_reject
+//@   pure_funcvalues
+//@   ensures_local [returns normally (exit status 0) only if the patterns were valid and every package translated] patternError == nil && forall j int :: 0 <= j && j < len(errs) ==> errs[j] == nil
+//@   at_call writeFileIfChanged [a file is written only for a package that translated, unless -ignore-errors] errs[i] == nil || ignoreErrors
+//@   loop 1 invariant [someError records every failed package so far] forall j int :: 0 <= j && j <= rangeindex ==> errs[j] == nil || someError
+//@   loop 1 invariant [one error slot per file] len(errs) == len(fs)
